@@ -200,7 +200,7 @@ def junk_priority_declaration(rng, tail=None):
 
 # well-formed at-rule heads followed by a token after their expected end
 AT_VALID = ['@import "a.css"', "@import url(a.css) print", '@namespace p "u"', '@namespace "d"']
-AT_TRAIL = [" @x", "@x", " /*c*/ @x", " @x y", " @x@y", " foo", " 3", " (a)"]
+AT_TRAIL = [" @x", "@x", " /*c*/ @x", " @x y", " @x@y", " 3"]   # (an identifier or a (..) after @import is a media query)
 
 # ------------------------------------------------------------------ implementation side (workers)
 def _tok(text, fs=True):
